@@ -155,6 +155,41 @@ fn synth(version: u32, items: &[Item]) -> Vec<u8> {
     img
 }
 
+/// Sources with more records than one scan batch (256) / one flush threshold (4096) of `migrate()`:
+/// one one-block record per key, keys in the given order on consecutive blocks.
+fn synth_many(version: u32, keys: &[Vec<u8>]) -> Vec<u8> {
+    let total = 16 + keys.len() as u64 + 8;
+    let mut img = l::empty_device(version, total, T0 / SEC);
+    for (i, k) in keys.iter().enumerate() {
+        let at = 16 + i as u64;
+        let r = Rec { key: k.clone(), value: format!("value-{i}").into_bytes(), timestamp: 1000 + i as u64, expiry: 0 };
+        let bytes = l::encode_record(version, at, &r);
+        assert_eq!(bytes.len(), BLOCK);
+        l::put(&mut img, at, &bytes);
+    }
+    img
+}
+
+/// Key families whose neighbours in byte order are related in the ways a paging cursor can get wrong:
+/// fixed width, every key a proper prefix of the next, unpadded numbers, runs of 0xff bytes.
+fn many_key_families(n: usize) -> Vec<(&'static str, Vec<Vec<u8>>)> {
+    let fixed: Vec<Vec<u8>> = (0..n).map(|i| format!("k{i:05}").into_bytes()).collect();
+    let chain: Vec<Vec<u8>> = (0..n).map(|i| {
+        let mut k = b"p".to_vec();
+        k.extend(std::iter::repeat(b'x').take(i));
+        k
+    }).collect();
+    let numbers: Vec<Vec<u8>> = (0..n).map(|i| format!("user:{i}").into_bytes()).collect();
+    let zeros: Vec<Vec<u8>> = (0..n).map(|i| {
+        let mut k = b"z".to_vec();
+        k.extend(std::iter::repeat(0u8).take(i));
+        k
+    }).collect();
+    let mut ff: Vec<Vec<u8>> = (0..n.saturating_sub(40)).map(|i| format!("a{i:05}").into_bytes()).collect();
+    ff.extend((1..=n.min(40)).map(|j| vec![0xffu8; j]));
+    vec![("fixed", fixed), ("prefix-chain", chain), ("numbers", numbers), ("nul-chain", zeros), ("ff-runs", ff)]
+}
+
 struct Outcome {
     problems: Vec<String>,
     migrated_ok: bool,
@@ -484,6 +519,31 @@ pub fn check(tier: &str, budget_s: f64, report: &mut Report) {
             }
         }
     }
+    // ---- (a') more records than one scan batch / flush threshold, neighbouring keys related by prefix
+    let counts: Vec<usize> = if thorough { vec![255, 256, 257, 300, 511, 512, 513, 600, 1025, 4095, 4096, 4097, 4200, 8200] } else { vec![255, 256, 257, 300, 513, 4097] };
+    let mut many = 0usize;
+    for version in [1u32, 2] {
+        for &n in &counts {
+            for (fam, keys) in many_key_families(n) {
+                // long chains are only needed around the scan batch; the flush threshold gets short keys
+                if n > 700 && fam != "fixed" && fam != "numbers" {
+                    continue;
+                }
+                // written in ascending and in descending block order (scan order is not key order)
+                for rev in [false, true] {
+                    let mut ks = keys.clone();
+                    if rev {
+                        ks.reverse();
+                    }
+                    if n > 700 && rev {
+                        continue;
+                    }
+                    images.push((format!("many-v{version}:{fam}:{n}{}", if rev { ":reversed" } else { "" }), synth_many(version, &ks)));
+                    many += 1;
+                }
+            }
+        }
+    }
     let synthesised = images.len();
     // ---- (b) images of real legacy workloads, including crash images
     let collected: Mutex<Vec<(String, Vec<u8>)>> = Mutex::new(Vec::new());
@@ -523,7 +583,10 @@ pub fn check(tier: &str, budget_s: f64, report: &mut Report) {
     let bad: Mutex<Vec<(String, String)>> = Mutex::new(Vec::new());
     let stop = AtomicBool::new(false);
     let images = Arc::new(images);
-    let work: Vec<(usize, bool, bool)> = (0..images.len()).flat_map(|i| [(i, false, false), (i, true, false), (i, false, true)]).collect();
+    let mut work: Vec<(usize, bool, bool)> = (0..images.len()).flat_map(|i| [(i, false, false), (i, true, false), (i, false, true)]).collect();
+    // the many-record sources are about paging, not about the opt-in or the destination: one case each, first
+    work.retain(|(i, allow, dest)| !images[*i].0.starts_with("many-") || (!*allow && !*dest));
+    work.sort_by_key(|(i, _, _)| !images[*i].0.starts_with("many-"));
     let n_work = work.len();
     let done = AtomicU64::new(0);
     par_for_each(work, threads, &stop, |t, (i, allow, dest_exists)| {
@@ -593,6 +656,7 @@ pub fn check(tier: &str, budget_s: f64, report: &mut Report) {
     report.add("distinct_nontrivial", images.len() as u64);
     report.set("rule", "one evaluation = migrate() of one distinct legacy image under one (opt-in, destination present) combination, or with the source modified at one named point of migrate(); distinct_nontrivial = distinct image contents (synthesised item sequences + crash images of real v1/v2 workloads)");
     report.set("synthesised_images", synthesised);
+    report.set("many_record_sources", many);
     report.set("images_from_real_legacy_workloads", real_n);
     report.set("migrations_succeeded", migrated.load(Ordering::Relaxed));
     report.set("migrations_refused", refused.load(Ordering::Relaxed));
@@ -601,7 +665,7 @@ pub fn check(tier: &str, budget_s: f64, report: &mut Report) {
     report.set("exhaustive", done.load(Ordering::Relaxed) as usize == n_work);
     report.sample(json!({"image": images[images.len() / 3].0, "cases": ["opt-in off", "opt-in on", "destination exists"]}));
     report.sample(json!({"image": images[images.len() - 1].0}));
-    report.assumptions.push("multi-batch paths (256-record scan batches, 4096-record flush threshold) are not enumerated".into());
+    report.assumptions.push("multi-batch paths (256-record scan batches, 4096-record flush threshold) are covered by the listed record counts and key families only".into());
 }
 
 /// Debug aid: time one synthesised case.
